@@ -4,6 +4,7 @@ import (
 	"context"
 	"errors"
 	"fmt"
+	"slices"
 	"sort"
 	"strconv"
 	"strings"
@@ -21,6 +22,8 @@ type compiler struct {
 	builtinScope  *scopeinfo
 	scopes        []*scopeinfo
 	scopecnt      int
+	globalfuncs   int
+	globalvars    int
 	regexpCache   sync.Map
 }
 
@@ -89,6 +92,7 @@ func Compile(q *Query, options ...CompilerOption) (*Code, error) {
 		c.appendCodeInfo(name)
 		c.append(&code{op: opstore, v: c.pushVariable(name)})
 	}
+	c.globalfuncs, c.globalvars = len(scope.funcs), len(scope.variables)
 	if c.moduleLoader != nil {
 		if moduleLoader, ok := c.moduleLoader.(interface {
 			LoadInitModules() ([]*Query, error)
@@ -194,11 +198,20 @@ func (c *compiler) compileModule(q *Query, alias string) error {
 		scope.variables = scope.variables[:l]
 	}(len(scope.variables))
 	if alias != "" {
-		defer func(l int) {
-			for _, f := range scope.funcs[l:] {
+		// An imported module does not see the names of its importer
+		// (other than the variables given by the compiler option).
+		funcs := slices.Clone(scope.funcs[c.globalfuncs:])
+		variables := slices.Clone(scope.variables[c.globalvars:])
+		scope.funcs = scope.funcs[:c.globalfuncs]
+		scope.variables = scope.variables[:c.globalvars]
+		defer func() {
+			for _, f := range scope.funcs[c.globalfuncs:] {
 				f.name = alias + "::" + f.name
 			}
-		}(len(scope.funcs))
+			scope.funcs = append(scope.funcs[:c.globalfuncs],
+				append(funcs, scope.funcs[c.globalfuncs:]...)...)
+			scope.variables = append(scope.variables[:c.globalvars], variables...)
+		}()
 	}
 	for _, i := range q.Imports {
 		if err := c.compileImport(i); err != nil {
